@@ -1379,6 +1379,10 @@ func (r *runningStep) runStage(forceCloseTimeoutMS int64) error {
 	// Execution complete, move to state running stage outputs, then to state finished stage.
 	r.transitionRunningStage(StageIDOutput)
 	r.completeStep(r.currentStage, step.RunningStepStateFinished, &result.OutputID, &result.OutputData)
+	// The step has produced its output: it cannot crash, fail to deploy or be closed anymore.
+	err := fmt.Errorf("step %s/%s finished with output %s", r.runID, r.pluginStepID, result.OutputID)
+	r.markNotClosable(err)
+	r.markErrorStagesImpossible(err, StageIDCrashed, StageIDDeployFailed)
 
 	return nil
 }
@@ -1409,6 +1413,14 @@ func (r *runningStep) markNotClosable(err error) {
 	r.stageChangeHandler.OnStepStageFailure(r, string(StageIDClosed), &r.wg, err)
 }
 
+// markErrorStagesImpossible declares that the given error-path stages will not occur anymore, so
+// that whatever waits for them is not left waiting once the step has ended another way.
+func (r *runningStep) markErrorStagesImpossible(err error, stages ...StageID) {
+	for _, stage := range stages {
+		r.stageChangeHandler.OnStepStageFailure(r, string(stage), &r.wg, err)
+	}
+}
+
 func (r *runningStep) deployFailed(err error) {
 	r.logger.Debugf("Deploy failed stage for step %s/%s", r.runID, r.pluginStepID)
 	r.transitionRunningStage(StageIDDeployFailed)
@@ -1424,6 +1436,7 @@ func (r *runningStep) deployFailed(err error) {
 	err = fmt.Errorf("deployment failed for step %s/%s", r.runID, r.pluginStepID)
 	r.markStageFailures(StageIDEnabling, err)
 	r.markNotClosable(err)
+	r.markErrorStagesImpossible(err, StageIDCrashed)
 }
 
 func (r *runningStep) transitionToDisabled() {
@@ -1447,6 +1460,7 @@ func (r *runningStep) transitionToDisabled() {
 	err := fmt.Errorf("step %s/%s disabled", r.runID, r.pluginStepID)
 	r.markStageFailures(StageIDStarting, err)
 	r.markNotClosable(err)
+	r.markErrorStagesImpossible(err, StageIDCrashed, StageIDDeployFailed)
 }
 
 func (r *runningStep) closedEarly(stageToMarkUnresolvable StageID, priorStageFailed bool) {
@@ -1471,6 +1485,7 @@ func (r *runningStep) closedEarly(stageToMarkUnresolvable StageID, priorStageFai
 
 	err := fmt.Errorf("step %s/%s closed due to workflow termination", r.runID, r.pluginStepID)
 	r.markStageFailures(stageToMarkUnresolvable, err)
+	r.markErrorStagesImpossible(err, StageIDCrashed, StageIDDeployFailed)
 }
 
 func (r *runningStep) startFailed(err error) {
@@ -1486,6 +1501,7 @@ func (r *runningStep) startFailed(err error) {
 	r.completeStep(StageIDCrashed, step.RunningStepStateFinished, &outputID, &output)
 	r.markStageFailures(StageIDRunning, err)
 	r.markNotClosable(err)
+	r.markErrorStagesImpossible(err, StageIDDeployFailed)
 }
 
 func (r *runningStep) runFailed(err error) {
@@ -1500,6 +1516,7 @@ func (r *runningStep) runFailed(err error) {
 	r.completeStep(StageIDCrashed, step.RunningStepStateFinished, &outputID, &output)
 	r.markStageFailures(StageIDOutput, err)
 	r.markNotClosable(err)
+	r.markErrorStagesImpossible(err, StageIDDeployFailed)
 }
 
 // TransitionStage transitions the running step to the specified stage, and the state running.
